@@ -89,10 +89,15 @@ def one_pair(ctx: Ctx, pid: str, config: str, w0, w1, rng) -> dict:
         r1 = B.run_mypy(root, cdir, args, crash_at=crash_at, fail_ops=fail_ops, scratch=base)
         rec = {"crash_at": crash_at, "fail_ops": fail_ops or [], "killed": bool(r1.get("killed"))}
         if not r1.get("killed"):
-            if r1.get("timeout") or r1.get("status") not in (0, 1):
+            if r1.get("timeout") or r1.get("status") not in (0, 1, 2):
                 raise ToolFailure(f"faulty run failed oddly: {r1.get('status')} {r1.get('stderr', '')[-800:]}")
-            # a failed write must not change what THIS run reports either
-            rec["same_run_diff"] = B.diff_outputs(B.canon_output(r1), ccold)
+            if r1.get("status") == 2:
+                # the failed operation stopped the run with a blocking error (a failed write of the plugins
+                # snapshot is reported that way): like a killed run, only what the NEXT run reports is judged
+                rec["aborted"] = True
+            else:
+                # a failed write must not change what THIS run reports either
+                rec["same_run_diff"] = B.diff_outputs(B.canon_output(r1), ccold)
         r2 = B.run_mypy(root, cdir, args, scratch=base)
         shutil.rmtree(cdir, ignore_errors=True)
         if r2.get("timeout") or r2.get("status") not in (0, 1):
